@@ -24,7 +24,9 @@ DIMS = {
     "macNames": [None, ["sha"], ["sha256"], ["aead"], ["sha384", "aead"], ["sha", "md5"]],
     "keyExchangeNames": [None, ["rsa"], ["dhe_rsa"], ["ecdhe_rsa"], ["ecdhe_ecdsa"], ["ecdhe_rsa", "rsa"], ["dh_anon"],
                          ["ecdh_anon", "dh_anon"], ["srp_sha"], ["srp_sha_rsa"], ["srp_sha_rsa", "srp_sha", "rsa"]],
-    "eccCurves": [None, ["secp256r1"], ["x25519"], ["secp384r1", "secp521r1"], ["x448", "secp256r1"], []],
+    "eccCurves": [None, ["secp256r1"], ["x25519"], ["secp384r1", "secp521r1"], ["x448", "secp256r1"], [],
+                  ["brainpoolP256r1tls13"], ["brainpoolP512r1tls13", "brainpoolP384r1tls13"], ["brainpoolP384r1", "brainpoolP256r1"],
+                  ["brainpoolP256r1", "brainpoolP256r1tls13"]],
     "dhGroups": [None, ["ffdhe2048"], ["ffdhe3072", "ffdhe4096"]],
     "ecdsaSigHashes": [None, ["sha512"], ["sha384", "sha512"], ["sha256"], ["sha1"]],
     "rsaSigHashes": [None, ["sha384"], ["sha1"], ["sha256", "sha1"]],
@@ -70,7 +72,7 @@ def make_settings(choice):
             setattr(hs, dim, list(r) if isinstance(r, list) else r)
     if not hs.eccCurves:
         # only finite-field groups: the key share must be one of them
-        hs.keyShares = [hs.dhGroups[0]]
+        hs.keyShares = [hs.dhGroups[0]] if hs.dhGroups else []
     return hs, alpn
 
 
@@ -490,6 +492,21 @@ def enumerate_jobs(tier, seed):
                     if r1 is not None and r1[1] == (3, 0):
                         sc["vers"] = ((3, 0), (3, 1))       # (the default server does not speak SSLv3)
                     add(cc, sc, "rsa")
+    # exactly ONE group in common, for every group the library knows, restricted on either side or on both, per version
+    # range (a group that one code path forgets is invisible as long as the default lists leave an alternative)
+    from tlslite.handshakesettings import CURVE_NAMES, ALL_DH_GROUP_NAMES
+    for g in list(CURVE_NAMES) + list(ALL_DH_GROUP_NAMES):
+        only = {"eccCurves": [g], "dhGroups": []} if g in CURVE_NAMES else {"eccCurves": [], "dhGroups": [g]}
+        for vr in (None, ((3, 4), (3, 4)), ((3, 3), (3, 3))):
+            for where in ("c", "s", "cs"):
+                cc = dict(base)
+                sc = dict(base)
+                cc["vers"] = sc["vers"] = vr
+                if "c" in where:
+                    cc.update(only)
+                if "s" in where:
+                    sc.update(only)
+                add(cc, sc, "rsa")
     extra = 300 if tier == "quick" else 4000
     for _ in range(extra):
         cc = {d: (rnd.choice(DIMS[d]) if rnd.random() < 0.35 else None) for d in dims}
